@@ -295,6 +295,18 @@ def run_shard(sh):
             if isinstance(c, list) and len(c) == 2 and isinstance(c[0], list) and isinstance(c[1], dict) \
                     and all(isinstance(x, str) for x in c[1]):
                 mined.append(((a, k), (c[0], c[1])))
+    # permuted insertion orders of keys that tie under the usual normalisations
+    import itertools
+    KEYPOOL = ['a', 'A', unicodedata.normalize('NFC', 'é'), unicodedata.normalize('NFD', 'é'), '1', '01', '', ' ']
+    for ks in itertools.combinations(KEYPOOL, 2):
+        d1, d2 = {ks[0]: 1, ks[1]: 2}, {ks[1]: 2, ks[0]: 1}
+        mined.append((([], d1), ([], d2)))
+        mined.append((([d1], {}), ([d2], {})))
+    for ks in itertools.combinations(KEYPOOL, 3):
+        perms = list(itertools.permutations(ks))
+        d1 = {k: i for i, k in enumerate(ks)}
+        for pm in rng2.sample(perms[1:], 2):
+            mined.append((([d1], {}), ([{k: d1[k] for k in pm}], {})))
     batch = []
     for x, y in mined:
         if sh.time_left() < (4 if sh.tier == 'quick' else 30):
